@@ -18,7 +18,7 @@ from pyvc.interp import BoundMethod, ExtName
 from pyvc.values import BOOL, INT, REAL, LstObj, Opaque, OrderVec, SymSeq, Unsupported, fresh
 
 from .common import forall_range
-from .engines_loops import ExeObj, Frame, FrameSeq, _fid, _frame_list
+from .engines_loops import ExeObj, Frame, FrameSeq, SysObj, _fid, _frame_list
 
 CP2K_PY = "infretis/classes/engines/cp2k.py"
 GMX_PY = "infretis/classes/engines/gromacs.py"
@@ -38,42 +38,6 @@ def _iv(x):
 
 def _bv(x):
     return x if z3.is_expr(x) else z3.BoolVal(bool(x))
-
-
-class SysObj:
-    """The System object the driver reuses for every frame (python-level record; copied with the state)."""
-
-    def __init__(self, vel_rev, fields=None):
-        self.vel_rev = vel_rev
-        self.fields = dict(fields or {})
-
-    def __pyvc_copy__(self, memo):
-        n = SysObj(self.vel_rev, self.fields)
-        memo[id(self)] = n
-        return n
-
-    def truth(self, st):
-        return True
-
-    def pyvc_getattr(self, attr, st, ex):
-        if attr == "vel_rev":
-            return self.vel_rev
-        if attr in ("pos", "vel", "box", "config"):
-            return self.fields.get(attr)
-        return BoundMethod(self, attr)
-
-    def pyvc_setattr(self, attr, v, st, ex):
-        if attr == "vel_rev":
-            self.vel_rev = v
-        else:
-            self.fields[attr] = v
-
-    def pyvc_method(self, name, args, kwargs, st, ex, node):
-        if name == "set_pos":
-            self.fields["config"] = tuple(args[0])
-            yield st, None
-            return
-        raise Unsupported(f"system.{name}")
 
 
 class DriverSelf:
